@@ -121,6 +121,11 @@ def entity_value_piece(kind, tag):
     if kind == "E":
         s, c = S(tag, 2)
         return K.mk_enum("XmlEntityValue", K.INFO, "Entity", s), And(c, lang("name", s)), []
+    if kind == "P":
+        # a parameter-entity reference inside an entity value: the parser accepts it (known finding C02 pe-in-entity-value),
+        # so the printer has to give it back as one
+        s, c = S(tag, 2)
+        return K.mk_enum("XmlEntityValue", K.INFO, "Parameter", s), And(c, lang("name", s)), []
     raise ValueError(kind)
 
 
@@ -138,6 +143,9 @@ def b_entity(n, pieces):
     if len(crs) == 1:
         k, kind = crs[0]
         mode = ("charref", int(kind[1:]), vals[k].fields[0])
+    elif not crs:
+        mode = ("refkinds", [vals[k].fields[0] for k, kind in enumerate(pieces) if kind == "P"],
+                [vals[k].fields[0] for k, kind in enumerate(pieces) if kind == "E"])
     return K.mk_obj("XmlEntity", K.INFO, name=nm, values=Some(vals), system_identifier=NONE, public_identifier=NONE, notation_name=NONE), And(*cons), "ge_decl", mode
 
 
@@ -244,7 +252,7 @@ def cases(tier):
         out.append(("notation", b_notation, (1, pub, s)))
         out.append(("doctype", b_doctype, (1, pub, s))) if s is not None else None
     out.append(("doctype", b_doctype, (2, None, None)))
-    for pieces in ((), ("T1",), ("T2",), ("C10",), ("C16",), ("E",), ("T1", "C16"), ("C16", "T1"), ("T1", "E", "T1")):
+    for pieces in ((), ("T1",), ("T2",), ("C10",), ("C16",), ("E",), ("T1", "C16"), ("C16", "T1"), ("T1", "E", "T1"), ("P",), ("T1", "P", "T1"), ("P", "E"), ("E", "P")):
         out.append(("entity", b_entity, (1, pieces)))
     out.append(("entity-ext", b_entity_ext, (1, 1, None)))
     out.append(("entity-ext", b_entity_ext, (1, 1, 1)))
@@ -300,6 +308,30 @@ def work(job):
                                 else:
                                     other.append(And(a, ce))
                 acc = And(acc, Or(*same), Not(Or(*other)))
+            if isinstance(mode, tuple) and mode[0] == "refkinds":
+                # every reference comes back as the kind it was: the parameter-entity alternative of EntityValue is taken
+                # (with the same name) exactly as often as the item has Parameter pieces, the Reference alternative
+                # exactly as often as it has Entity pieces (<= 1 of each kind per case, so "iff" + name equality)
+                _, pnames, enames = mode
+                evp = g.production("entity_value", P)
+                act = active.activation(run, node, acc)
+                for target, names in (("pe_reference", pnames), ("reference", enames)):
+                    refs = active.find_nodes(g, evp, lambda n: n.kind == "ref" and n.arg[1] == target)
+                    if not refs or len(names) > 1:
+                        raise nomsem.Unsupported("entity_value production shape")
+                    hits = []
+                    for (nid, q), (n, a) in act.items():
+                        if any(nid == r.id for r in refs):
+                            for e, ce in run.ends(n, q).items():
+                                if e is None or e is False:
+                                    continue
+                                if names:
+                                    nm = names[0]
+                                    if e - q == len(nm) + 2:
+                                        hits.append(And(a, ce, *[sym.ceq(inp[q + 1 + d], nm[d].c) for d in range(len(nm))]))
+                                else:
+                                    hits.append(And(a, ce))
+                    acc = And(acc, Or(*hits) if names else Not(Or(*hits)))
             if isinstance(mode, tuple) and mode[0] == "pi":
                 # Some("") and None print differently and must re-parse to what they were: the optional data part of
                 # the production is used iff the item has data
@@ -354,6 +386,22 @@ def work(job):
                 sd = probe.fields["standalone"]
                 out["witness"]["source"] = "<?xml version='%s'%s%s?>" % (ver, (" encoding='%s'" % enc) if enc else "",
                                                                           "" if sd.variant == "None" else (" standalone='%s'" % ("yes" if sd.fields[0] is True else "no")))
+            if name == "entity" and probe.fields["values"].variant == "Some":
+                # the declaration as a document author writes it (each piece in its own syntax)
+                parts = []
+                for v in probe.fields["values"].fields[0]:
+                    txt = K.model_str(mdl, v.fields[0])
+                    if v.variant == "Text":
+                        parts.append(txt)
+                    elif v.variant == "Entity":
+                        parts.append("&%s;" % txt)
+                    elif v.variant == "Parameter":
+                        parts.append("%%%s;" % txt)
+                    else:
+                        parts.append(("&#%s;" if v.fields[1] == 10 else "&#x%s;") % txt)
+                body = "".join(parts)
+                q = "'" if '"' in body else '"'
+                out["witness"]["source"] = "<!ENTITY %s %s%s%s>" % (K.model_str(mdl, probe.fields["name"]), q, body, q)
             if name == "pi":
                 tgt = K.model_str(mdl, probe.fields["target"])
                 cnt = probe.fields["content"]
